@@ -140,13 +140,16 @@ where
 
         let hash = key.stable_hash();
         let mut pos = hash % self.capacity();
+        let start_pos = pos;
         let mut free_pos = None;
         let mut ret = None;
 
         loop {
             match self.data.state(storage, pos)? {
                 MapValueState::Empty => {
-                    free_pos = Some(pos);
+                    if free_pos.is_none() {
+                        free_pos = Some(pos);
+                    }
                     break;
                 }
                 MapValueState::Deleted => {
@@ -166,7 +169,11 @@ where
                 MapValueState::Valid => {}
             }
 
-            pos = self.next_pos(pos)
+            pos = self.next_pos(pos);
+
+            if pos == start_pos {
+                break;
+            }
         }
 
         if let Some(pos) = free_pos {
